@@ -135,6 +135,21 @@ NEEDS = {
              "first sample to be lower than the launch-time sample (the recorded peak decreases)",
     "C20-a": "the monitor overwrites max-rss.txt in place and truncates afterwards: needs the reader to run between "
              "the write of a shorter value and the truncate (or before the first write)",
+    "C01-d": "_split_node builds the second node's mask as the complement of the first BEFORE pole 1 is forced into "
+             "node 1: needs a leaf split whose pole 1 is no closer to itself than to pole 2 (an all-zero centroid, or "
+             "all centroids identical under never-merge); that cluster is then reported twice",
+    "C05-d": "a trailing single-pair batch is folded into the previous one with chunks[-2] += chunks.pop(): needs a "
+             "midsection round with bin_size >= 2 and a number of buffer/index pairs > bin_size and = 1 mod bin_size "
+             "(three or more batches: one batch lost, one processed twice; two batches: IndexError)",
+    "C08-d": "merge_subcluster front-inserts its own labels into the nominee's list when the nominee is longer; the "
+             "ancestors then extend with the mutated list: needs a re-inserted cluster with more members than the "
+             "leaf entry absorbing it, under a tree of two or more levels (shuffled recluster, merge rounds)",
+    "C12-d": "jt_most_dissimilar_packed moves fp_2 to fp_1 + 1 after the similarities to the old fp_2 were computed: "
+             "needs argmin(sims to fp_1) == fp_1, visible when row 0 is all-zero and row 1 is not",
+    "C16-d": "_FingerprintArrayFiller slices fps to its batch but not the invalid mask: needs --skip-invalid, the "
+             "single-file path cut into several batches, and an invalid SMILES in a batch other than the first",
+    "C18-d": "get_assignments writes a slice first..last when last - first == n - 1: needs a cluster whose member "
+             "list is not increasing (after refine / recluster) and meets that coincidence without being a range",
 }
 EXTRA = {"C17-a": ["C10"], "C12-a": ["C07"], "C02-a": ["C12"], "C14-b": ["C05"], "C03-b": ["C07"], "C07-b": ["C03"],
          "C05-c": ["C09"], "C02-c": ["C08"]}
